@@ -13,8 +13,8 @@ TIERS = {
     "C03": T(1500, 25000),
     "C04": T(2000, 30000),
     "C05": T(700, 12000),
-    "C13": T(350, 8000),
-    "C14": T(400, 8000),
+    "C13": T(1200, 12000),
+    "C14": T(1500, 12000),
     "C18": T(2500, 40000),
 }
 
